@@ -197,3 +197,48 @@ def fold_module_constants(tree: ast.Module) -> int:
                 st.value = Fold().visit(st.value)
                 ast.fix_missing_locations(st)
     return n_folded
+
+
+def unroll_registrars(tree: ast.Module) -> int:
+    """N27: a module-level helper `def h(*items): for x in items: <simple statements>` that is only ever called at module level with constant
+    arguments is what it does: every call statement `h("a", "b")` becomes the loop body once per argument, in order, with the loop variable
+    replaced by the constant (a table registered row by row reads the same however the rows are spelled).  The helper and a `del h` go."""
+    import copy
+    n_done = 0
+    for fn in [st for st in tree.body if isinstance(st, ast.FunctionDef)]:
+        a = fn.args
+        if not a.vararg or a.args or a.kwonlyargs or a.kwarg or a.posonlyargs or fn.decorator_list:
+            continue
+        body = [s for s in fn.body if not (isinstance(s, ast.Expr) and isinstance(s.value, ast.Constant))]
+        if not (len(body) == 1 and isinstance(body[0], ast.For) and not body[0].orelse and isinstance(body[0].target, ast.Name)
+                and isinstance(body[0].iter, ast.Name) and body[0].iter.id == a.vararg.arg
+                and all(isinstance(s, ast.Expr) and isinstance(s.value, ast.Call) for s in body[0].body)):
+            continue
+        loop = body[0]
+        refs = [n for n in ast.walk(tree) if isinstance(n, ast.Name) and n.id == fn.name]
+        calls = [st for st in tree.body if isinstance(st, ast.Expr) and isinstance(st.value, ast.Call) and isinstance(st.value.func, ast.Name)
+                 and st.value.func.id == fn.name and not st.value.keywords and all(isinstance(x, ast.Constant) for x in st.value.args)]
+        dels = [st for st in tree.body if isinstance(st, ast.Delete) and len(st.targets) == 1 and isinstance(st.targets[0], ast.Name) and st.targets[0].id == fn.name]
+        if not calls or len(refs) != len(calls) + len(dels):
+            continue
+        new_body = []
+        for st in tree.body:
+            if st is fn or st in dels:
+                continue
+            if st in calls:
+                for arg_ in st.value.args:
+                    class Sub(ast.NodeTransformer):
+                        def visit_Name(self, n):
+                            if n.id == loop.target.id and isinstance(n.ctx, ast.Load):
+                                return ast.copy_location(ast.Constant(value=arg_.value), n)
+                            return n
+                    for s in loop.body:
+                        ns = Sub().visit(copy.deepcopy(s))
+                        ast.copy_location(ns, st)
+                        ast.fix_missing_locations(ns)
+                        new_body.append(ns)
+                n_done += 1
+                continue
+            new_body.append(st)
+        tree.body = new_body
+    return n_done
